@@ -4,6 +4,7 @@
 //           gen_tweak(plan, cfg rng)              optional
 // Modes by property: search contract (C08/C09/C10/C18), lifetime histories (C19), reserved values (C20), boundary (C17).
 #pragma once
+#include <deque>
 #include "a_common.hpp"
 #include <memory>
 #include <new>
@@ -171,6 +172,7 @@ struct StaticClass {
         p.set("qseed", work.next() >> 1);
         if (!scale) p.set("qmax", large ? 1500 : 2000);
         if (!p.has("recipe")) { Rng shape = sim::stream(g.run_seed, "shape"); Tr::post_keys(p, shape); }
+        { Rng use = sim::stream(g.run_seed, "usage"); if (!scale && !scale19 && use.chance(100)) p.set("container", "deque"); } // random access, not contiguous
         if (!scale && !scale19 && (g.prop == "C08" || g.prop == "C09" || g.prop == "C10" || g.prop == "C18" || g.prop == "C17") && cfg.chance(g.prop == "C18" ? 400 : 150)) {
             p.set("successor", cfg.chance(300) ? 2 : 1);
             if (large) { p.set("successor_same_data", 1); p.set("successor_procs", cfg.range(1, 20)); }
@@ -229,7 +231,11 @@ struct StaticClass {
         sim::begin_run(env);
         Index *idx = nullptr;
         try {
-            idx = Tr::build(data);
+            using DqIt = typename std::deque<K>::iterator;
+            if constexpr (std::is_constructible_v<Index, DqIt, DqIt>) {
+                if (p.get("container") == "deque") { std::deque<K> dq(data.begin(), data.end()); st.inc("reach.range_from_deque"); idx = new Index(dq.begin(), dq.end()); }
+            }
+            if (!idx) idx = Tr::build(data);
         } catch (const std::exception &e) {
             sim::end_run();
             if (Tr::out_of_domain(e)) { st.inc("skipped_out_of_domain"); out.trace_hash = tr.h; return out; }
